@@ -74,6 +74,7 @@ type Scenario struct {
 	PostYield   bool           `json:"post_yield,omitempty"`
 	Pace        int            `json:"pace_ms,omitempty"`       // tcp: the server keeps its default timeouts (2 s for the first message of a connection, 8 s idle between messages) and every peer pauses this long before each frame after its first: long-lived connections, each message well inside the idle timeout
 	Anonymous   bool           `json:"anonymous,omitempty"`     // udp: the socket is of a kind whose peers have no address (unixgram, unbound clients): reads report none, replies cannot be routed - they are collected where the socket refuses them
+	Again       bool           `json:"again,omitempty"`         // udp: when the server has been shut down it is given a larger UDPSize and a new socket and started again; the peers then send queries padded beyond the old size (and within the new one): a second life of the same Server value
 	Async       bool           `json:"async,omitempty"`         // tcp: the handler answers every other accepted request from a task of its own, after it has returned (the server is reading - and rejecting - the messages behind it meanwhile); peers read what they are sent
 	FinWithData bool           `json:"fin_with_data,omitempty"` // tcp: peers end their sending right behind their last frame, and the read that returns the last octets returns io.EOF with them      // the return of every transport operation is a scheduling point of its own
 	Msgs        []InMsg        `json:"msgs,omitempty"`
@@ -227,6 +228,9 @@ func Gen(seed uint64, tier string) any {
 		// read the end, and a reply still to be written by another task meets that close - a stream's writer
 		// belongs to its connection)
 		sc.Async = true
+	}
+	if sc.Transport == "udp" && sc.Soak == "" && sc.ShutCtxMs == 0 && sc.UDPSize < 4096 && core.Chance(r, 12) {
+		sc.Again = true
 	}
 	if core.Chance(r, 12) {
 		sc.Transient = append(sc.Transient, r.IntN(3))
@@ -420,6 +424,7 @@ type adm struct {
 	serveRet bool
 	serveErr string
 
+	dgramBase  int  // datagrams the net had seen when this life began (the judge looks at the later ones)
 	ctxExpired bool // the ShutdownContext that stopped the server gave up waiting: replies of handlers still at work may be lost
 }
 
@@ -667,6 +672,8 @@ type admServe struct{ a *adm }
 
 //go:norace
 func (s admServe) RunEvent(time.Time) {
+	s.a.k.Observe() // (a second life begins when the first is over)
+	defer s.a.k.Announce()
 	err := s.a.srv.ActivateAndServe()
 	s.a.k.Lock()
 	s.a.serveRet, s.a.serveErr = true, common.ErrStr(err)
@@ -690,6 +697,7 @@ type admLife struct{ a *adm }
 //go:norace
 func (l admLife) RunEvent(time.Time) {
 	a := l.a
+	a.k.Observe()
 	defer a.fin(&a.lifeFin)
 	if a.sc.ShutAfter > 0 && a.sc.Transport == "udp" {
 		// stop the server while datagrams are still arriving: whatever its read returned must still be accounted for
@@ -747,10 +755,62 @@ func runAdmission(sc *Scenario, res *core.Result, verbose bool) {
 	n.PostYield = sc.PostYield
 	n.Stream = simnet.StreamLink{MinDelay: time.Millisecond, Jitter: 2 * time.Millisecond, SegMode: sc.SegMode, ShortRead: sc.ShortRead}
 	n.Dgram = simnet.DgramLink{MinDelay: time.Millisecond, Jitter: 3 * time.Millisecond, Dup: sc.Dup}
-	a := &adm{sc: sc, k: k, n: n, res: res, byID: map[uint16][]byte{}, handled: map[uint16]int{}, peerFin: make([]bool, sc.Peers)}
+	defer k.Abort()
+	srv := &dns.Server{ReadTimeout: time.Hour, IdleTimeout: hour, MaxTCPQueries: -1}
+	start0 := time.Now()
+	finish := func() {
+		res.Steps = k.Steps
+		res.SimNS = int64(time.Since(start0))
+		res.Digest = k.Digest()
+		for name, v := range k.Stats {
+			res.Stats[name] += v
+		}
+		if verbose {
+			res.Log = k.Log
+		}
+	}
+	if !runAdmLife(sc, res, k, n, srv, verbose) || !sc.Again || res.Verdict != core.OK {
+		finish()
+		return
+	}
+	// the second life: the same Server value, a larger receive buffer, a new socket, larger queries
+	sc2 := *sc
+	sc2.UDPSize, sc2.ShutAfter, sc2.Again = 4096, 0, false
+	sc2.Msgs = nil
+	for i, im := range sc.Msgs {
+		b, _ := hex.DecodeString(im.Hex)
+		if m := new(dns.Msg); len(b) >= 12 && m.Unpack(append([]byte(nil), b...)) == nil && len(m.Extra) < 2 && !m.Response && m.Opcode == dns.OpcodeQuery && len(m.Question) == 1 {
+			// padded beyond the old size with one NULL record in the additional section
+			pad := sc.UDPSize + 50 + 97*i%1500 - len(b)
+			if pad > 0 {
+				m.Extra = append(m.Extra, &dns.NULL{Hdr: dns.RR_Header{Name: ".", Rrtype: dns.TypeNULL, Class: dns.ClassINET}, Data: strings.Repeat("P", pad)})
+			}
+			m.Id = uint16(0x300 + i)
+			if nb, err := m.Pack(); err == nil && len(nb) <= 4096 {
+				b = nb
+			}
+		} else if len(b) >= 2 {
+			b = append([]byte(nil), b...)
+			b[0], b[1] = byte((0x300+i)>>8), byte(0x300+i)
+		}
+		sc2.Msgs = append(sc2.Msgs, InMsg{Peer: im.Peer, Hex: hex.EncodeToString(b), Note: im.Note + "+second-life"})
+	}
+	res.Bump("cover.second_life_with_larger_udpsize")
+	runAdmLife(&sc2, res, k, n, srv, verbose)
+	finish()
+}
+
+// runAdmLife runs one life of the server: sockets, tasks, the kernel until they are done, the judge. It reports
+// whether the life ended in good order.
+//
+//go:norace
+func runAdmLife(sc *Scenario, res *core.Result, k *kernel.K, n *simnet.Net, srv *dns.Server, verbose bool) bool {
+	a := &adm{sc: sc, k: k, n: n, res: res, byID: map[uint16][]byte{}, handled: map[uint16]int{}, peerFin: make([]bool, sc.Peers), dgramBase: len(n.Dgrams)}
 	a.mux = dns.NewServeMux()
 	a.mux.Handle("test.", recHandler{a})
-	a.srv = &dns.Server{Handler: a, MsgAcceptFunc: a.accept, MsgInvalidFunc: a.invalidFunc, UDPSize: sc.UDPSize, ReadTimeout: time.Hour, IdleTimeout: hour, MaxTCPQueries: -1}
+	a.srv = srv
+	srv.Handler, srv.MsgAcceptFunc, srv.MsgInvalidFunc, srv.UDPSize = a, a.accept, a.invalidFunc, sc.UDPSize
+	srv.Listener, srv.PacketConn = nil, nil
 	if sc.PkgPolicy {
 		// an application that replaces the library's default policy for all its servers
 		keep := dns.DefaultMsgAcceptFunc
@@ -807,34 +867,24 @@ func runAdmission(sc *Scenario, res *core.Result, verbose bool) {
 			a.byID[uint16(b[0])<<8|uint16(b[1])] = b
 		}
 	}
-	start0 := time.Now()
 	k.Go("serve", admServe{a})
 	k.Go("life", admLife{a})
 	for i := 0; i < sc.Peers; i++ {
 		k.Go("peer"+strconv.Itoa(i), &peerTask{a, i})
 	}
 	out := k.Run(admDone{a})
-	res.Steps = k.Steps
-	res.SimNS = int64(time.Since(start0))
-	res.Digest = k.Digest()
-	for name, v := range k.Stats {
-		res.Stats[name] += v
-	}
-	if verbose {
-		res.Log = k.Log
-	}
-	defer k.Abort()
 	switch out {
 	case kernel.StepCap:
 		if res.Verdict == core.OK {
 			res.Verdict, res.Msg = core.Harness, "step cap reached"
 		}
-		return
+		return false
 	case kernel.Quiescent:
 		res.Fail("D1", "stuck", "the run cannot make progress: parked %v", k.Parked())
-		return
+		return false
 	}
 	a.judge()
+	return res.Verdict == core.OK && !a.ctxExpired
 }
 
 //go:norace
@@ -895,7 +945,7 @@ func (a *adm) judge() {
 		replies[h.ID] = append(replies[h.ID], repl{h, b})
 	}
 	if sc.Transport == "udp" {
-		for _, d := range a.n.Dgrams {
+		for _, d := range a.n.Dgrams[a.dgramBase:] {
 			if d.From.S == "10.0.0.1:53" && !d.Injected && d.CopyOf == 0 {
 				add(d.Orig)
 			}
